@@ -111,6 +111,17 @@ def make_sized(spec):
         return np.arange(max(1, n // 8), dtype=np.int64) + u
     if t == "int":
         return u
+    if t in ("part", "odpart"):
+        # a partition whose value "p" has exactly the bytes of the str value with the same (u, n): it must share that object
+        from twosigma.memento.partition import InMemoryPartition
+        d = {"p": tag + "s" * max(n, 0), "q": u}
+        if t == "part":
+            return InMemoryPartition(d)
+        from twosigma.memento.storage_filesystem import OnDiskPartition
+        p = OnDiskPartition()
+        for k in sorted(d):
+            p[k] = d[k]
+        return p
     raise ValueError(t)
 
 
